@@ -66,6 +66,7 @@ pub fn pool_cfg(workers: usize) -> PoolConfig {
         envs: vec![],
         workers,
         watchdog: Duration::from_secs(30),
+        max_lost: 24,
     }
 }
 
@@ -82,6 +83,7 @@ fn judge(prop: &str, projects: &[corpus::Project], case: &Value, reply: &Reply) 
             (vec![Violation { invariant: "no_abort".into(), signature: format!("worker {class}"), detail: info.clone() }], None)
         }
         Reply::Hung => (vec![Violation { invariant: "no_hang".into(), signature: "no reply within watchdog".into(), detail: String::new() }], None),
+        Reply::Skipped => (vec![], None),
         Reply::Ok(v) => {
             if let Some(e) = v.get("harness_error") {
                 simkit::harness_error(&format!("worker: {e} for case {case}"));
@@ -118,6 +120,7 @@ fn outcome_key(reply: &Reply) -> String {
         }
         Reply::Died(_) => "died".into(),
         Reply::Hung => "hung".into(),
+        Reply::Skipped => "skipped".into(),
     }
 }
 
@@ -125,6 +128,7 @@ pub fn drive(prop: &str, args: &[String]) -> i32 {
     let opts = parse_opts(args);
     let t0 = Instant::now();
     println!("sim_fs {prop} format={} tier={} VERIF_SEED={} workers={}", corpus::label(), opts.tier, opts.seed, opts.workers);
+    clean_stale_scratch();
     let mut projects = dedup(corpus::load());
     if projects.is_empty() {
         simkit::harness_error("no corpus project in this format");
@@ -281,10 +285,24 @@ fn write_digests(replies: &[Reply]) {
             Reply::Ok(v) => format!("{:016x}", simkit::fnv(v.to_string().as_bytes())),
             Reply::Died(_) => "died".to_string(),
             Reply::Hung => "hung".to_string(),
+            Reply::Skipped => "skipped".to_string(),
         };
         out.push_str(&format!("{i} {d}\n"));
     }
     let _ = std::fs::write(format!("{path}.{}", corpus::label()), out);
+}
+
+/// Scratch directories of workers that were killed (watchdog) are left behind: remove those whose process is gone.
+fn clean_stale_scratch() {
+    let Ok(rd) = std::fs::read_dir("/dev/shm") else { return };
+    for e in rd.flatten() {
+        let name = e.file_name().to_string_lossy().to_string();
+        if let Some(pid) = name.strip_prefix("simfs-") {
+            if !std::path::Path::new(&format!("/proc/{pid}")).exists() {
+                crate::exec::force_remove(&e.path());
+            }
+        }
+    }
 }
 
 fn fault_kinds(case: &Value) -> String {
@@ -368,6 +386,9 @@ fn minimise(prop: &str, projects: &[corpus::Project], cfg: &PoolConfig, case: &V
                 i += 1;
             }
         }
+    }
+    if v.invariant == "no_hang" {
+        return cur; // every candidate costs a full watchdog period: keep the case as it is
     }
     // 2. simplify flags and stream plans
     for (key, simple) in [("decoys", json!(false)), ("codegen", json!(false))] {
